@@ -338,6 +338,16 @@ func PublishContext[T any](bus *EventBus, ctx context.Context, event T) {
 			}
 		}
 
+		// Check context cancellation before claiming a once handler: a publish
+		// that is skipped because its context is already cancelled must not
+		// use the handler up (it would be marked executed and then removed
+		// without ever running).
+		select {
+		case <-ctx.Done():
+			continue // Skip if context cancelled
+		default:
+		}
+
 		// For once handlers, use CompareAndSwap to ensure atomic execution
 		if h.once {
 			if !atomic.CompareAndSwapUint32(&h.executed, 0, 1) {
@@ -363,13 +373,7 @@ func PublishContext[T any](bus *EventBus, ctx context.Context, event T) {
 				}
 			}(h)
 		} else {
-			// Check context cancellation for sync handlers too
-			select {
-			case <-ctx.Done():
-				continue // Skip if context cancelled
-			default:
-				callHandlerWithContext(h, ctx, event, bus.panicHandler, bus.observability, eventTypeName, false)
-			}
+			callHandlerWithContext(h, ctx, event, bus.panicHandler, bus.observability, eventTypeName, false)
 		}
 	}
 
